@@ -6,3 +6,4 @@ def install_all(eng, modules=None):
     import importlib
     for m in modules or MODULES:
         importlib.import_module("contracts." + m).install(eng)
+    eng.finalize_async()
